@@ -157,7 +157,8 @@ class Hist:
             raise ValueError(op)
 
     def __call__(self, task):
-        start, hist = task
+        start, hist = task[:2]
+        pre = task[2] if len(task) > 2 else 0
         rb.quiet()
         rebound = self.rebound
         if self.names is None:
@@ -168,6 +169,9 @@ class Hist:
             sim = self.start(start)
             st = {"N": sim.N, "var": None, "integ": "whfast" if start.startswith("whfast") else start, "adds": 0, "overlap": False}
             model = []
+            if pre:
+                # the first snapshot is taken from a simulation that has already stepped (its integrator arrays exist)
+                sim.steps(pre)
             sim.save_to_file(fn)
             model.append((sim.t, self.snap(sim)))
             for i, op in enumerate(hist):
@@ -340,7 +344,13 @@ class Cadence:
                 ref.synchronize()       # integrate() synchronises after its loop, before the final cadence look-up
                 boundary(ref.t)
                 sim.integrate(t_end, exact_finish_time=0)
-                if manual and li < len(legs) - 1:
+                if manual == "again" and li < len(legs) - 1:
+                    # the same request once more (what a restarted run does): documented not to disturb the cadence
+                    if mode == "interval":
+                        sim.save_to_file(fn, interval=val)
+                    else:
+                        sim.save_to_file(fn, step=val)
+                elif manual and li < len(legs) - 1:
                     sim.save_to_file(fn)
                     ref.synchronize()
                     expected.append((ref.t, rb.fields_masked(rb.stream(ref)), "manual"))
@@ -387,6 +397,8 @@ def run(ctx):
         for d in range(1, depth + 1):
             for h in itertools.product(OPS, repeat=d):
                 tasks.append((start, list(h)))
+                if any(op in ("reset", "remove_all") or op.startswith("to_") for op in h):
+                    tasks.append((start, list(h), 2))      # the same history on an archive whose first snapshot already holds integrator arrays
     tasks = ctx.shuffled(tasks)
     H = Hist(rebound)
     res = pool.run_tasks(H, tasks, timeout=60, progress=lambda d, n: ctx.note("histories %d/%d" % (d, n)))
@@ -395,7 +407,10 @@ def run(ctx):
     appends = 0
     samples = []
     from .. import common
-    for (start, h), r in zip(tasks, res):
+    for tk, r in zip(tasks, res):
+        start, h = tk[0], tk[1]
+        if len(tk) > 2:
+            start = "%s after %d steps" % (start, tk[2])
         if r[0] != "ok":
             if r[0] == "crash":
                 frag, short = common.classify_crash(r[1])
@@ -423,7 +438,7 @@ def run(ctx):
             for val in vals:
                 for legs in ([24], [7, 17], [10, 1, 13]):
                     for sign in (1, -1):
-                        for manual in (False, True):
+                        for manual in (False, True, "again"):
                             if manual and len(legs) == 1:
                                 continue
                             ctasks.append((integ, mode, val, legs, sign, manual))
